@@ -692,4 +692,220 @@ theorem trendsW_inside (q : Query) (w : Nat) (evs : List (Ty × Nat))
       have hb : b ∈ evs := hm b (List.mem_of_mem_getLast? (by simp [hl]))
       simp [h a ha b hb]
 
+/-! ### several windows: `flush()` + `reset` -/
+theorem Hamlet.runWindows_single (qs : List Query) (m : Nat) (evs : List Ty) :
+    Hamlet.runWindows qs m [evs] =
+      ((Hamlet.run qs m evs).1, (Hamlet.run qs m evs).2.map fun (q, v) => (0, q, v)) := by
+  simp [Hamlet.runWindows, Hamlet.run]
+
+theorem GretaImpl.runWindows_single (qs : List Query) (evs : List Ty) (known : Ty → Bool) :
+    GretaImpl.runWindows qs [evs] known =
+      ((GretaImpl.run qs evs known).1, (GretaImpl.run qs evs known).2.map fun (q, v) => (0, q, v)) := by
+  simp [GretaImpl.runWindows, GretaImpl.run]
+
+
+namespace Hamlet
+
+/-- template, registrations and sharing threshold: what `reset` keeps -/
+def CoreEq (a b : Agg) : Prop := a.tpl = b.tpl ∧ a.regs = b.regs ∧ a.minQueries = b.minQueries
+
+theorem CoreEq.refl (a : Agg) : CoreEq a a := ⟨rfl, rfl, rfl⟩
+theorem CoreEq.trans {a b c : Agg} (h1 : CoreEq a b) (h2 : CoreEq b c) : CoreEq a c :=
+  ⟨h1.1.trans h2.1, h1.2.1.trans h2.2.1, h1.2.2.trans h2.2.2⟩
+
+theorem core_setState (a : Agg) (q : Nat) (s : QState) : CoreEq a (setState a q s) := ⟨rfl, rfl, rfl⟩
+theorem core_addFinal (a : Agg) (q n : Nat) : CoreEq a (addFinal a q n) := by
+  unfold addFinal; split <;> exact ⟨rfl, rfl, rfl⟩
+
+theorem core_foldl {β : Type} (f : Agg → β → Agg) (hf : ∀ a b, CoreEq a (f a b)) :
+    ∀ (l : List β) (a : Agg), CoreEq a (l.foldl f a) := by
+  intro l
+  induction l with
+  | nil => intro a; exact CoreEq.refl a
+  | cons x xs ih => intro a; exact (hf a x).trans (ih (f a x))
+
+theorem core_processShared (a : Agg) (size : Nat) (qs : List Nat) : CoreEq a (processShared a size qs) := by
+  unfold processShared
+  apply core_foldl
+  intro a q
+  dsimp only
+  split
+  · exact CoreEq.refl a
+  · exact core_setState _ _ _
+
+theorem core_processNonShared (a : Agg) (size : Nat) (qs : List Nat) : CoreEq a (processNonShared a size qs) := by
+  unfold processNonShared
+  apply core_foldl
+  intro a q
+  dsimp only
+  split
+  · exact CoreEq.refl a
+  · split
+    · exact core_setState _ _ _
+    · exact CoreEq.refl a
+
+theorem core_processClosed (a : Agg) (ty : Ty) (size : Nat) : CoreEq a (processClosed a ty size) := by
+  unfold processClosed
+  split
+  · exact CoreEq.refl a
+  · dsimp only
+    split
+    · exact core_processShared _ _ _
+    · exact core_processNonShared _ _ _
+
+theorem core_updateQueryState (a : Agg) (q : Nat) (ty : Ty) : CoreEq a (updateQueryState a q ty).1 := by
+  unfold updateQueryState
+  repeat' (first | split | dsimp only)
+  all_goals first
+    | exact CoreEq.refl _
+    | exact core_setState _ _ _
+    | exact (core_setState _ _ _).trans (core_addFinal _ _ _)
+
+theorem core_update_fold (ty : Ty) : ∀ (regs : List (Nat × List Ty)) (a : Agg) (acc : List (Nat × Nat)),
+    CoreEq a (regs.foldl (fun (acc : Agg × List (Nat × Nat)) r =>
+      let (a', rep) := updateQueryState acc.1 r.1 ty
+      (a', match rep with | some v => acc.2 ++ [(r.1, v)] | none => acc.2)) (a, acc)).1 := by
+  intro regs
+  induction regs with
+  | nil => intro a acc; exact CoreEq.refl a
+  | cons r rs ih =>
+    intro a acc
+    simp only [List.foldl_cons]
+    exact (core_updateQueryState a r.1 ty).trans (ih _ _)
+
+theorem core_process (a : Agg) (ty : Ty) : CoreEq a (process a ty).1 := by
+  unfold process
+  split
+  · exact CoreEq.refl a
+  · dsimp only
+    refine CoreEq.trans ?_ (core_update_fold ty _ _ _)
+    cases a.lastTy with
+    | none => exact ⟨rfl, rfl, rfl⟩
+    | some l =>
+      dsimp only
+      split
+      · have := core_processClosed a l a.active
+        exact ⟨this.1, this.2.1, this.2.2⟩
+      · exact ⟨rfl, rfl, rfl⟩
+
+theorem core_events_fold : ∀ (l : List (Ty × Nat)) (a : Agg) (inc : List (Nat × Nat × Nat)),
+    CoreEq a (l.foldl (fun (acc : Agg × List (Nat × Nat × Nat)) (x : Ty × Nat) =>
+      match x with
+      | (ty, k) =>
+        let (a', reps) := process acc.1 ty
+        (a', acc.2 ++ reps.map fun (q, v) => (k, q, v))) (a, inc)).1 := by
+  intro l
+  induction l with
+  | nil => intro a inc; exact CoreEq.refl a
+  | cons x xs ih =>
+    intro a inc
+    obtain ⟨ty, k⟩ := x
+    simp only [List.foldl_cons]
+    exact (core_process a ty).trans (ih _ _)
+
+theorem regs_fst (qs : List Query) (m : Nat) :
+    (Agg.new qs m).regs.map (·.1) = List.range qs.length := by
+  simp only [Agg.new, List.map_map]
+  apply List.ext_getElem <;> simp
+
+/-- after `flush()` the mirror aggregator is the freshly constructed one: every window starts from
+`Agg.new qs m`, whatever happened in the windows before -/
+theorem reset_fresh (qs : List Query) (m : Nat) (a : Agg) (h : CoreEq (Agg.new qs m) a) :
+    reset a = Agg.new qs m := by
+  obtain ⟨h1, h2, h3⟩ := h
+  have hr := regs_fst qs m
+  unfold reset
+  rw [← h1, ← h2, ← h3]
+  have e1 : (Agg.new qs m).regs.map (fun r => (r.1, ({ cur := (Agg.new qs m).tpl.initialOf r.1 } : QState))) =
+      (List.range qs.length).map fun id => (id, ({ cur := (buildTemplate qs).initialOf id } : QState)) := by
+    rw [← hr, List.map_map]; rfl
+  have e2 : (Agg.new qs m).regs.map (fun r => (r.1, 0)) = (List.range qs.length).map fun id => (id, 0) := by
+    rw [← hr, List.map_map]; rfl
+  rw [e1, e2]
+  rfl
+
+end Hamlet
+namespace Hamlet
+
+theorem idle_new (s : Step) (ss : Query) (m : Nat) : Idle (Agg.new [s :: ss] m) := by
+  refine ⟨?_, ?_⟩
+  · intro e he
+    simp [Agg.new, List.range_succ] at he
+    subst he
+    exact ⟨rfl, rfl, rfl⟩
+  · intro f hf
+    simp [Agg.new, List.range_succ] at hf
+    subst hf; rfl
+
+theorem noStart_new (s : Step) (ss : Query) (m : Nat) (t : Ty) (h : t ≠ s.ty) : NoStart (Agg.new [s :: ss] m) t := by
+  intro e he
+  simp [Agg.new, List.range_succ] at he
+  subst he
+  exact transition_none _ s.ty t (tinv_build s ss) h
+
+/-- several windows, one query, no event of its first type in any window: no report in any window -/
+theorem runWindows_no_start (s : Step) (ss : Query) (m : Nat) (hm : 2 ≤ m) (wins : List (List Ty))
+    (h : ∀ w ∈ wins, ∀ t ∈ w, t ≠ s.ty) : runWindows [s :: ss] m wins = ([], []) := by
+  unfold runWindows
+  have hlen : (Agg.new [s :: ss] m).regs.length < (Agg.new [s :: ss] m).minQueries := by
+    simp [Agg.new]; omega
+  have key : ∀ (l : List (List Ty × Nat)) (off : Nat), (∀ p ∈ l, ∀ t ∈ p.1, t ≠ s.ty) →
+      l.foldl (fun (acc : Agg × Nat × List (Nat × Nat × Nat) × List (Nat × Nat × Nat)) (x : List Ty × Nat) =>
+        match x with
+        | (evs, w) =>
+          let (a, off, inc, fl) := acc
+          let r := (evs.zipIdx off).foldl (fun (acc : Agg × List (Nat × Nat × Nat)) (x : Ty × Nat) =>
+            match x with
+            | (ty, k) =>
+              let (a', reps) := process acc.1 ty
+              (a', acc.2 ++ reps.map fun (q, v) => (k, q, v))) (a, inc)
+          (reset r.1, off + evs.length, r.2, fl ++ (flush r.1).map fun (q, v) => (w, q, v)))
+        (Agg.new [s :: ss] m, off, [], []) =
+      (Agg.new [s :: ss] m, off + (l.map (·.1.length)).sum, [], []) := by
+    intro l
+    induction l with
+    | nil => intro off _; simp
+    | cons p ps ih =>
+      intro off hp
+      obtain ⟨evs, w⟩ := p
+      have hn : ∀ x ∈ evs.zipIdx off, NoStart (Agg.new [s :: ss] m) x.1 := by
+        intro x hx
+        apply noStart_new
+        apply hp (evs, w) (by simp) x.1
+        have := List.mem_map_of_mem (f := Prod.fst) hx
+        simpa using this
+      obtain ⟨a', hf, hs⟩ := run_fold_idle (evs.zipIdx off) (Agg.new [s :: ss] m) (idle_new s ss m) hn hlen
+      have hlen' : a'.regs.length < a'.minQueries := by rw [← hs.2.1, ← hs.2.2.1]; exact hlen
+      have hfl : flush a' = [] := flush_idle a' (idle_of_same hs (idle_new s ss m)) hlen'
+      have hre : reset a' = Agg.new [s :: ss] m := reset_fresh _ m a' ⟨hs.1, hs.2.1, hs.2.2.1⟩
+      simp only [List.foldl_cons]
+      have hf' : (evs.zipIdx off).foldl (fun (acc : Agg × List (Nat × Nat × Nat)) (x : Ty × Nat) =>
+            match x with
+            | (ty, k) =>
+              let (a', reps) := process acc.1 ty
+              (a', acc.2 ++ reps.map fun (q, v) => (k, q, v))) (Agg.new [s :: ss] m, []) = (a', []) := hf
+      simp only [hf', hfl, hre, List.map_nil, List.append_nil]
+      rw [ih (off + evs.length) (fun p' hp' => hp p' (by simp [hp']))]
+      simp [Nat.add_assoc]
+  have hk := key wins.zipIdx 0 (by
+    intro p hp t ht
+    have : p.1 ∈ wins := by
+      have := List.mem_map_of_mem (f := Prod.fst) hp
+      simpa using this
+    exact h p.1 this t ht)
+  have hk' : wins.zipIdx.foldl
+      (fun (acc : Agg × Nat × List (Nat × Nat × Nat) × List (Nat × Nat × Nat)) (x : List Ty × Nat) =>
+        match x with
+        | (evs, w) =>
+          let (a, off, inc, fl) := acc
+          let r := (evs.zipIdx off).foldl (fun (acc : Agg × List (Nat × Nat × Nat)) (x : Ty × Nat) =>
+            match x with
+            | (ty, k) =>
+              let (a', reps) := process acc.1 ty
+              (a', acc.2 ++ reps.map fun (q, v) => (k, q, v))) (a, inc)
+          (reset r.1, off + evs.length, r.2, fl ++ (flush r.1).map fun (q, v) => (w, q, v)))
+      (Agg.new [s :: ss] m, 0, [], []) = _ := hk
+  simp only [hk']
+
+end Hamlet
 end Varpulis.Trend
